@@ -642,6 +642,67 @@ func runGrpcJSONDiscard(res *vkit.Result, instances, entries int) {
 // calls, payloads and metadata (a user editing ammo.hcl between two runs in one process, two pools
 // with generated files), and shot again by a new provider: the server must receive what the
 // file says now.
+// runGrpcJSONRampTail: the ammo file (one pass) runs out while the startup profile is still
+// starting instances and the instances that exist hold an entry each, waiting for their turn in
+// a paced profile. The end of the ammo is no reason to drop what has been handed out: every
+// entry of the file reaches the server, once, with its own metadata.
+func runGrpcJSONRampTail(res *vkit.Result, entries int) {
+	c := Case{Kind: "grpcjson-ramp-tail", Instances: 0, TimeoutMs: 5000, Shots: entries}
+	var b strings.Builder
+	for i := 0; i < entries; i++ {
+		fmt.Fprintf(&b, `{"tag":"t%d","call":"target.TargetService.Hello","payload":{"name":"d-%d"},"metadata":{"x-id":"%d"}}`+"\n", i, i, i)
+	}
+	path := vkit.WriteMem([]byte(b.String()))
+	defer vkit.RemoveMem(path)
+	tgt.ResetCalls()
+	ec, err := vkit.DecodePools(map[string]any{"pools": []any{map[string]any{
+		"id": "p", "ammo": map[string]any{"type": "grpc/json", "file": path, "passes": 1}, "result": map[string]any{"type": "discard"},
+		"gun": gunConf(c, "grpc"), "rps": map[string]any{"type": "const", "ops": 25, "duration": "60s"},
+		"startup": map[string]any{"type": "const", "ops": 6, "duration": "30s"},
+	}}})
+	if err != nil {
+		res.Violate("C20/grpcjson-ramp-tail/rejected", fmt.Sprintf("valid pool config rejected: %v", err), c)
+		return
+	}
+	aggr := &vkit.MockAggregator{}
+	ec.Pools[0].Aggregator = aggr
+	rr := vkit.RunEngine(ec, nil, 120*time.Second)
+	if rr.Hang {
+		res.Inconclusive(false, "grpc ramp pool did not end within 120s")
+		return
+	}
+	if rr.Err != nil {
+		res.Violate("C20/grpcjson-ramp-tail/run-error", fmt.Sprintf("run ended with %v", rr.Err), c)
+		return
+	}
+	arrived := map[string]int{}
+	for _, call := range tgt.Calls() {
+		name := markerOfName(call.Req)
+		id := call.MD.Get("x-id")
+		if len(id) != 1 || name != "d-"+id[0] {
+			res.Violate("C20/grpcjson-ramp-tail/mixed-entry", fmt.Sprintf("a call arrived with name %q and x-id %v: message and metadata of different entries", name, id), c)
+			continue
+		}
+		arrived[name]++
+	}
+	var missing []string
+	dup := 0
+	for i := 0; i < entries; i++ {
+		switch n := arrived[fmt.Sprintf("d-%d", i)]; {
+		case n == 0:
+			missing = append(missing, fmt.Sprintf("d-%d", i))
+		case n > 1:
+			dup++
+		}
+	}
+	if len(missing) > 0 || dup > 0 {
+		res.Violate("C20/grpcjson-ramp-tail/arrival", fmt.Sprintf("%d entries in the file, read once: %d never reached the server (%v), %d arrived more than once", entries, len(missing), missing, dup), c)
+	}
+	res.Count("calls_matched", int64(len(arrived)))
+	res.Count("ramp_tail_runs", 1)
+	res.Eval(vkit.JSON(c), true)
+}
+
 func runScenarioHCLReload(res *vkit.Result) {
 	c := Case{Kind: "scenario-hcl-reload", Instances: 1, TimeoutMs: 3000, Shots: 2}
 	hcl := func(call, field, name, run string) string {
@@ -743,6 +804,8 @@ func main() {
 	runSlowScenario(res)
 	runScenarioHCLReload(res)
 	runGrpcJSONDiscard(res, 1, 700)
+	runGrpcJSONRampTail(res, 40)
+	runGrpcJSONRampTail(res, 23)
 	runTemplateErrorScenario(res, 1)
 	runTemplateErrorScenario(res, 3)
 	vkit.CheckRaceLog(res, "C20")
